@@ -560,10 +560,21 @@ def rule_annotation_identity(model: Model, rule_id: str = 'C10-R14') -> RuleResu
         r.analysed.add(ci.qualname)
         eq = model.functions.get(f"{ci.qualname}.__eq__")
         deco = [unparse(d) for d in ci.node.decorator_list]
+        declared = [st.target.id for st in ci.node.body if isinstance(st, ast.AnnAssign) and isinstance(st.target, ast.Name)]
         if eq is None:
             bad = [d for d in deco if re.search(r'\beq\s*=\s*False', d)]
-            r.sample({'class': ci.qualname, 'eq': 'generated by dataclass (field-wise)' if deco else 'inherited', 'decorators': deco})
-            r.ok()   # identity or field-wise equality: both are at least as fine as field-wise
+            # generated equality is field-wise over the fields that take part in comparison: none may be taken out of it
+            left_out = [st for st in ci.node.body if isinstance(st, ast.AnnAssign) and isinstance(st.value, ast.Call)
+                        and any(k.arg == 'compare' and isinstance(k.value, ast.Constant) and k.value.value is False for k in st.value.keywords)]
+            r.sample({'class': ci.qualname, 'eq': 'generated by dataclass (field-wise)' if deco else 'inherited', 'decorators': deco,
+                      'fields left out of the comparison': [unparse(st.target) for st in left_out]})
+            if left_out and deco:
+                st = left_out[0]
+                r.fail(ci.qualname, f"field `{unparse(st.target)}` is declared with compare=False", f"{mod.relpath}:{st.lineno}",
+                       "annotation objects that differ only in that field (two conditions with the same name and different predicates) compare "
+                       "equal and hash alike: typing hands back the Annotated type built first, the second condition is replaced by the first")
+            else:
+                r.ok()   # identity or field-wise equality: both are at least as fine as field-wise
             _ = bad
             continue
         # hand-written equality: every use of a field of self/other must be the whole field
@@ -585,6 +596,20 @@ def rule_annotation_identity(model: Model, rule_id: str = 'C10-R14') -> RuleResu
                         and isinstance(x.args[0], ast.Attribute) and isinstance(x.args[0].value, ast.Name) \
                         and x.args[0].value.id in g.params[:2] and x.args[0].attr != '__class__':
                     bad_uses.append((g, x))
+        # ... and every declared field takes part, on every path of the key / comparison
+        per_return: t.List[t.Set[str]] = []
+        for q_ in sorted(seen):
+            g_ = model.functions[q_]
+            me_ = g_.params[:1]
+            for ret in ast.walk(g_.node):
+                if isinstance(ret, ast.Return) and ret.value is not None and not (isinstance(ret.value, ast.Name) and ret.value.id == 'NotImplemented') \
+                        and not isinstance(ret.value, ast.Constant):
+                    per_return.append({x.attr for x in ast.walk(ret.value) if isinstance(x, ast.Attribute) and isinstance(x.value, ast.Name)
+                                       and x.value.id in me_ and x.attr in declared})
+        keyed = [s_ for s_ in per_return if s_]
+        if keyed and (any(s_ != keyed[0] for s_ in keyed) or set(declared) - set().union(*keyed)):
+            missing_ = sorted(set(declared) - set.intersection(*keyed))
+            bad_uses.append((eq, ast.copy_location(ast.Name(id=f"fields {missing_} do not take part on every path", ctx=ast.Load()), eq.node)))
         r.sample({'class': ci.qualname, 'eq': 'hand-written', 'closure': sorted(seen), 'projections': [unparse(x) for (_g, x) in bad_uses]})
         if bad_uses:
             g, x = bad_uses[0]
@@ -1276,6 +1301,76 @@ def rule_field_settings_copied(model: Model, rule_id: str = 'C18-R9') -> RuleRes
                 r.fail(f.qualname, f"{name}={str(got)[:70]}", f.loc(call),
                        f"the field's `{name}` setting is not the one declared: e.g. a field converter that is dropped for some fields "
                        f"(init=False ...) lets call-level, class-level or built-in converters serialise the field instead of its own")
+        # the type: the declared one (Any when there is no annotation), never widened or narrowed by other settings
+        r.instances += 1
+        targ = next((k.value for k in call.keywords if k.arg == 'type'), None)
+        rd = cfg.reaching()
+        missing_re = re.compile(r'(self\.ty is pane\.\w+\._MISSING|pane\.\w+\._MISSING is self\.ty)')
+
+        def type_leaves(e: ast.AST, at: Node, absent: bool, depth: int = 0) -> t.List[t.Tuple[str, bool]]:
+            """(normal form, only when the declaration has no type) of everything the `type=` argument may be."""
+            if isinstance(e, ast.IfExp):
+                text, pos = nz.literal(e.test, at)
+                m_ = bool(missing_re.fullmatch(text))
+                return type_leaves(e.body, at, absent or (m_ and pos), depth) + type_leaves(e.orelse, at, absent or (m_ and not pos), depth)
+            if isinstance(e, ast.Call) and model.resolve(e.func, f.module, f) == 'typing.cast' and len(e.args) == 2:
+                return type_leaves(e.args[1], at, absent, depth)
+            if isinstance(e, ast.Name) and rd.is_local(e.id) and depth < 4:
+                ds = rd.at(at, e.id)
+                if ds and all(d.kind in ('assign', 'walrus') and d.value is not None and not d.path for d in ds):
+                    out_: t.List[t.Tuple[str, bool]] = []
+                    for d in ds:
+                        gov = _site_conditions(model, f, d.value)
+                        ab = absent or any(truth and missing_re.fullmatch(text) for (_g, text, truth) in gov)
+                        out_ += type_leaves(d.value, d.node, ab, depth + 1)
+                    return out_
+            return [(nz.expr(e, at), absent)]
+        leaves_ = type_leaves(targ, n, False) if targ is not None else []
+        r.sample({'type': leaves_})
+        bad_ = [x for (x, ab) in leaves_ if not (x == 'self.ty' or (x == 'typing.Any' and ab))]
+        if leaves_ and not bad_:
+            r.ok()
+        else:
+            r.fail(f.qualname, f"type={str(bad_[0] if bad_ else None)[:80]}", f.loc(call),
+                   "the type a field is converted with is not the declared one: e.g. a default of None silently makes the field Optional, "
+                   "so an explicit null is accepted where the annotation allows none")
+    return r
+
+
+def rule_field_forwards_arguments(model: Model, rule_id: str = 'C15-R9') -> RuleResult:
+    """``field(...)`` records what the user wrote: every argument reaches ``FieldSpec`` under its own name, unchanged (``hash`` alone has
+    a documented fallback: ``compare`` when it is not given)."""
+    r = RuleResult(rule_id, "field() hands every argument to the declaration object under the same name, unchanged", floor=10)
+    impl = [g for q, g in model.functions.items() if q == 'pane.field.field' and isinstance(g.node, ast.FunctionDef)]
+    if not impl:
+        raise AnalysisError('pane.field.field not found')
+    f = impl[0]
+    cfg = cfg_of(model, f)
+    nz = Normalizer(model, f, cfg, param_map=_pm(f))
+    r.analysed.add(f.qualname)
+    from ..cfg import returned_values
+    calls = [(e, n) for (e, n) in returned_values(cfg) if isinstance(e, ast.Call)]
+    if not calls:
+        raise AnalysisError('pane.field.field does not return a FieldSpec(...) call')
+    params = [a.arg for a in f.node.args.kwonlyargs + f.node.args.args]
+    for (call, n) in calls:
+        kw = {k.arg: nz.expr(k.value, n) for k in call.keywords if k.arg}
+        for p_ in params:
+            r.instances += 1
+            got = kw.get(p_)
+            want = {f'${p_}'}
+            if p_ == 'hash':
+                if any(x_.kind == 'cond' and nz.literal(x_.ast, x_)[0] in ('$hash is None', 'None is $hash') for x_ in cfg.nodes):
+                    want |= {'PHI($compare|$hash)', 'PHI($hash|$compare)'}      # the same fallback written as an if statement
+                want |= {f'($hash if not None is $hash else $compare)', f'($hash if not $hash is None else $compare)',
+                         f'($compare if None is $hash else $hash)', f'($compare if $hash is None else $hash)'}
+            if got in want:
+                r.ok()
+            else:
+                r.sample({p_: got})
+                r.fail(f.qualname, f"{p_}={str(got)[:70]}", f.loc(call),
+                       f"the declaration records something else for `{p_}` than the user wrote (e.g. an init=False field silently becomes "
+                       "excluded from the output): layouts, output and comparison follow the altered setting")
     return r
 
 
@@ -1373,6 +1468,25 @@ def rule_any_keeps_handlers(model: Model, rule_id: str = 'C18-R10') -> RuleResul
             r.ok()
         else:
             r.fail(own.qualname, 'the writer never looks at its handlers', own.loc(), "custom converters are ignored for Any-typed members on output")
+        # a shortcut "no handlers at all" has to look at both sets (call-level and class-level): the handler-less default writer is
+        # taken only when neither has an entry
+        hcls = model.classes.get('pane.convert.ConverterHandlers')
+        sets = [st.target.id for st in hcls.node.body if isinstance(st, ast.AnnAssign) and isinstance(st.target, ast.Name)] if hcls else []
+        ocfg = cfg_of(model, own)
+        for c in walk_no_nested(own.node):
+            if isinstance(c, ast.Call) and unparse(c.func) in ('super().into_data', 'into_data', 'Converter.into_data'):
+                r.instances += 1
+                gov = _site_conditions(model, own, c)
+                seen_sets = {nm for (_g, text, _truth) in gov for nm in sets if re.search(rf'handlers\.{nm}\b', text)}
+                whole = any(re.search(r'handlers\)?$|TRUTHY\(self\.handlers\)|len\(self\.handlers\)', text) for (_g, text, _t) in gov)
+                r.sample({'handler-less shortcut': unparse(c)[:50], 'governed by tests of': sorted(seen_sets) or ('the whole handler object' if whole else [])})
+                if whole or not sets or seen_sets == set(sets):
+                    r.ok()
+                else:
+                    r.fail(own.qualname, f"the handler-less shortcut only looks at {sorted(seen_sets) or 'nothing'}", own.loc(c),
+                           f"with only {sorted(set(sets) - seen_sets)} handlers in effect (a dataclass declared with custom=...) values in "
+                           "Any-typed positions are written without them")
+        _ = ocfg
     return r
 
 
@@ -2256,7 +2370,9 @@ def rule_given_option_reaches_record(model: Model, rule_id: str = 'C17-R14') -> 
         ev.run(f, env, observe)
         r.instances += 1
         r.sample({p_: {k: sorted(map(str, v)) for k, v in seen.items()}})
-        lost = sorted(k for k in feeds if NONE in seen.get(k, {NONE}))
+        def holds_none(v: t.Any) -> bool:
+            return v == NONE or (isinstance(v, tuple) and any(holds_none(x_) for x_ in v))
+        lost = sorted(k for k in feeds if any(holds_none(v) for v in seen.get(k, {NONE})))
         if not lost:
             r.ok()
         else:
@@ -2687,4 +2803,571 @@ def rule_parameters_from_all_bases(model: Model, rule_id: str = 'C17-R17') -> Ru
         r.fail(f.qualname, "the inherited parameters are read by attribute lookup on the new class only", f.loc(),
                "attribute lookup stops at the first base that has __parameters__: class D(A[T], B[U]) gets (T,), D[int, str] raises "
                "'Too many arguments' and U can never be bound")
+    return r
+
+
+# ============================================================================ round 8
+
+
+def rule_conversion_result_used(model: Model, rule_id: str = 'C01-R6') -> RuleResult:
+    """``conv.try_convert(v)`` / ``conv.convert(v)`` as a statement of its own throws the converted value away: whatever follows works on
+    the raw input (a lookup keyed by a list where the converted tuple is the key)."""
+    r = RuleResult(rule_id, "the result of a delegated conversion is never discarded", floor=1)
+    n_funcs = 0
+    for cq, fs in sorted(conversion_zone(model).items()):
+        for f in fs:
+            if not isinstance(f.node, ast.FunctionDef) or f.qualname in r.analysed:
+                continue
+            r.analysed.add(f.qualname)
+            n_funcs += 1
+            for st in ast.walk(f.node):
+                if isinstance(st, ast.Expr) and isinstance(st.value, ast.Call) and isinstance(st.value.func, ast.Attribute) \
+                        and st.value.func.attr in ('try_convert', 'convert') and st.value.args:
+                    r.instances += 1
+                    r.fail(f.qualname, f"`{unparse(st)[:60]}` discards the converted value", f.loc(st),
+                           "the inner converter is only asked whether the value is acceptable; the raw input (a list read from JSON / YAML where "
+                           "the converted tuple is meant) is then used in its place")
+    r.instances += 1
+    r.sample({'functions scanned': n_funcs})
+    r.ok()
+    return r
+
+
+def rule_no_printf_exception_args(model: Model, rule_id: str = 'C08-R13') -> RuleResult:
+    """``raise ValueError("... %d ...", a, b)`` (logging style) leaves the template unformatted in ``args[0]``: messages built from
+    ``e.args[0]`` or ``str(e)`` show placeholders instead of the values."""
+    r = RuleResult(rule_id, "no exception is raised with a printf-style template and separate arguments", floor=1)
+    n = 0
+    for f in model.all_functions():
+        if not isinstance(f.node, ast.FunctionDef) or not f.module.name.startswith('pane.'):
+            continue
+        for st in walk_no_nested(f.node):
+            if isinstance(st, ast.Raise) and isinstance(st.exc, ast.Call):
+                n += 1
+                a = st.exc.args
+                if len(a) >= 2 and isinstance(a[0], ast.Constant) and isinstance(a[0].value, str) and re.search(r'%[sdrif]|\{\}', a[0].value):
+                    r.instances += 1
+                    r.analysed.add(f.qualname)
+                    r.fail(f.qualname, f"`{unparse(st)[:70]}`", f.loc(st),
+                           "the message is never formatted: the error text read from the exception (args[0]) is the bare template")
+    r.instances += 1
+    r.sample({'raise statements scanned': n})
+    r.ok()
+    return r
+
+
+THIRD_PARTY_REGISTRARS = {'add_implicit_resolver', 'add_constructor', 'add_representer', 'add_multi_constructor', 'add_multi_representer',
+                          'add_path_resolver', 'register', 'register_error', 'setrecursionlimit', 'setlocale', 'simplefilter', 'filterwarnings',
+                          'set_int_max_str_digits'}
+
+
+def rule_no_third_party_state(model: Model, rule_id: str = 'C10-R17') -> RuleResult:
+    """Registering resolvers / constructors on PyYAML's shared loader classes (or any other process-wide registry of an imported
+    module) changes what *other* calls parse, from then on: the outcome of a read depends on which reads happened before."""
+    r = RuleResult(rule_id, "no function changes process-wide state of an imported library (loader registries, global settings)", floor=1)
+    n = 0
+    for f in model.all_functions():
+        if not isinstance(f.node, ast.FunctionDef) or not f.module.name.startswith('pane.'):
+            continue
+        n += 1
+        imported = set(f.local_imports) | set(f.module.imports)
+        # locals bound to an imported class (Loader = yaml.SafeLoader) count as imported
+        for x in ast.walk(f.node):
+            if isinstance(x, ast.Assign) and len(x.targets) == 1 and isinstance(x.targets[0], ast.Name):
+                root = x.value
+                while isinstance(root, ast.Attribute):
+                    root = root.value
+                if isinstance(root, ast.Name) and root.id in imported:
+                    imported.add(x.targets[0].id)
+        for x in walk_no_nested(f.node):
+            if isinstance(x, ast.Call) and isinstance(x.func, ast.Attribute) and x.func.attr in THIRD_PARTY_REGISTRARS:
+                root = x.func.value
+                while isinstance(root, ast.Attribute):
+                    root = root.value
+                q = model.resolve(x.func.value, f.module, f) if isinstance(x.func.value, (ast.Name, ast.Attribute)) else None
+                if isinstance(root, ast.Name) and root.id in imported and not (q or '').startswith('pane.') \
+                        and not (q or '').startswith(('functools', 'abc.', 'atexit')):
+                    r.instances += 1
+                    r.analysed.add(f.qualname)
+                    r.fail(f.qualname, f"`{unparse(x)[:70]}`", f.loc(x),
+                           "a registry shared by the whole process is changed on a call: the same text is parsed differently by other entry "
+                           "points (and by other libraries) before and after the first such call")
+    r.instances += 1
+    r.sample({'functions scanned': n})
+    r.ok()
+    return r
+
+
+def rule_errors_render_lazily(model: Model, rule_id: str = 'C04-R10') -> RuleResult:
+    """Constructing ``ConvertError`` or an error node formats nothing: values that cannot be printed (an int of 5000 digits, a list
+    nested a thousand deep) would otherwise make *raising the error* fail with ValueError / RecursionError - also for inner errors the
+    diagnostic pass builds and throws away."""
+    r = RuleResult(rule_id, "constructing ConvertError / an error node renders nothing (text is produced by __str__ / print_error only)", floor=1)
+    mod = model.module('pane.errors')
+    for ci in model.classes.values():
+        if ci.module is not mod:
+            continue
+        for nm in ('__init__', '__post_init__', '__new__'):
+            g = ci.methods.get(nm)
+            if g is None or not isinstance(g.node, ast.FunctionDef):
+                continue
+            r.instances += 1
+            r.analysed.add(g.qualname)
+            bad = None
+            for x in ast.walk(g.node):
+                if isinstance(x, ast.Call) and isinstance(x.func, ast.Name) and x.func.id in ('str', 'repr', 'format', 'print') and x.args:
+                    bad = x
+                if isinstance(x, ast.Call) and isinstance(x.func, ast.Attribute) and x.func.attr in ('print_error', '__str__', 'format', '__repr__'):
+                    bad = x
+                if isinstance(x, ast.JoinedStr) and any(isinstance(v, ast.FormattedValue) for v in x.values):
+                    bad = x
+            r.sample({g.qualname: unparse(bad)[:60] if bad is not None else 'renders nothing'})
+            if bad is None:
+                r.ok()
+            else:
+                r.fail(g.qualname, f"`{unparse(bad)[:60]}` while the error is being constructed", g.loc(bad),
+                       "an offending value that cannot be formatted makes the conversion raise ValueError / RecursionError instead of ConvertError")
+    if r.instances == 0:
+        raise AnalysisError('pane.errors: no error constructor found')
+    return r
+
+
+def rule_no_instance_dict_writes(model: Model, rule_id: str = 'C14-R13') -> RuleResult:
+    """Fields are stored with ``object.__setattr__``, which honours ``__slots__`` and descriptors.  Writing into ``vars(self)`` /
+    ``self.__dict__`` fails for slotted classes (supported: the class may declare ``__slots__``) and hides values behind slot descriptors."""
+    r = RuleResult(rule_id, "the dataclass machinery never writes into an instance's __dict__ directly", floor=1)
+    mod = model.module('pane.classes')
+    n = 0
+    for f in model.all_functions():
+        if f.module is not mod or not isinstance(f.node, ast.FunctionDef):
+            continue
+        n += 1
+        for x in walk_no_nested(f.node):
+            tgt = None
+            if isinstance(x, ast.Call) and isinstance(x.func, ast.Attribute) and x.func.attr in ('update', 'setdefault', '__setitem__', 'pop', 'clear'):
+                tgt = x.func.value
+            elif isinstance(x, (ast.Assign, ast.AugAssign)):
+                tgts = x.targets if isinstance(x, ast.Assign) else [x.target]
+                for tg in tgts:
+                    if isinstance(tg, ast.Subscript):
+                        tgt = tg.value
+            if tgt is None:
+                continue
+            if (isinstance(tgt, ast.Call) and isinstance(tgt.func, ast.Name) and tgt.func.id == 'vars' and tgt.args
+                    and isinstance(tgt.args[0], ast.Name) and tgt.args[0].id in ('self', 'obj', 'inst', 'instance')) \
+                    or (isinstance(tgt, ast.Attribute) and tgt.attr == '__dict__' and isinstance(tgt.value, ast.Name)
+                        and tgt.value.id in ('self', 'obj', 'inst', 'instance')):
+                r.instances += 1
+                r.analysed.add(f.qualname)
+                r.fail(f.qualname, f"`{unparse(x)[:70]}`", f.loc(x),
+                       "a class that keeps its fields in __slots__ has no instance dictionary: construction from mapping data raises (taken "
+                       "for a failing __post_init__), or the value lands where the slot descriptor hides it")
+    r.instances += 1
+    r.sample({'functions scanned': n})
+    r.ok()
+    return r
+
+
+def rule_tagged_variants_unchanged(model: Model, rule_id: str = 'C13-R10') -> RuleResult:
+    """``TaggedUnionConverter.__init__`` hands the variant types it was given to ``UnionConverter.__init__`` as they are: a variant
+    written ``Annotated[A, cond]`` keeps its condition (the tag may be *looked up* on the class inside, the converter is built from the
+    annotated type)."""
+    r = RuleResult(rule_id, "the tagged union builds its variant converters from the variant types as declared (annotations kept)", floor=1)
+    f = model.func('pane.converters.TaggedUnionConverter.__init__')
+    cfg = cfg_of(model, f)
+    nz = Normalizer(model, f, cfg)
+    r.analysed.add(f.qualname)
+    tp = f.params[1]
+    sup = [(c, n) for n in cfg.live_nodes() for root in node_exprs(n) for c in walk_no_nested(root)
+           if isinstance(c, ast.Call) and unparse(c.func) == 'super().__init__']
+    if not sup:
+        raise AnalysisError('TaggedUnionConverter.__init__: super().__init__ not found')
+    for c, n in sup:
+        r.instances += 1
+        form = nz.expr(c.args[0], n) if c.args else None
+        r.sample({'variant types handed on': form})
+        if form == f'${tp}':
+            r.ok()
+        else:
+            r.fail(f.qualname, f"super().__init__({str(form)[:60]}, ...)", f.loc(c),
+                   "the variant converters are built from something else than the declared variant types: conditions (and any other "
+                   "annotation) attached to a variant are dropped")
+    return r
+
+
+def rule_condition_wraps_inner_as_given(model: Model, rule_id: str = 'C11-R12') -> RuleResult:
+    """``Condition._converter(inner_type)`` wraps *one* conditional converter around the inner type it is given.  Distributing the
+    condition over the members of a union turns "the left-most accepting member, then the condition" into "the left-most member whose
+    result passes the condition"."""
+    r = RuleResult(rule_id, "a condition wraps the inner type as a whole (it is not distributed over union members)", floor=1)
+    f = model.func('pane.annotations.Condition._converter')
+    cfg = cfg_of(model, f)
+    nz = Normalizer(model, f, cfg, param_map=_pm(f))
+    r.analysed.add(f.qualname)
+    inner = f.params[1]
+    from ..cfg import returned_values
+    for (e, n) in returned_values(cfg):
+        r.instances += 1
+        form = nz.expr(e, n)
+        r.sample({'returns': form[:120]})
+        if re.match(r'^pane\.converters\.ConditionalConverter\(\$%s, ' % re.escape(inner), form):
+            r.ok()
+        else:
+            r.fail(f.qualname, f"returns {form[:80]}", f.loc(e),
+                   "the condition is not applied to the result of the inner type as a whole: for a union the member is no longer the "
+                   "left-most one that accepts the value")
+    others = [x for x in ast.walk(f.node) if isinstance(x, ast.Call) and re.search(r'get_origin|get_args|UnionConverter', unparse(x.func))]
+    if others:
+        r.instances += 1
+        r.fail(f.qualname, f"`{unparse(others[0])[:60]}` inspects the inner type", f.loc(others[0]),
+               "a condition has no business looking inside the type it restricts")
+    return r
+
+
+INTERCHANGE_SCALARS = {'str', 'bytes', 'int', 'bool', 'float', 'complex'}
+
+
+def rule_scalar_rows_write_interchange(model: Model, rule_id: str = 'C05-R13') -> RuleResult:
+    """Every ``ScalarConverter`` row of the built-in table names the interchange scalar class its values are written as (``str`` for a
+    string - also for an instance of a ``str`` subclass, which the YAML dumper refuses -, ``bytes`` for a bytearray ...).  A row without
+    one writes the typed value as it is: ``bytearray`` and subclasses of ``str`` / ``bytes`` are not interchange values."""
+    r = RuleResult(rule_id, "every row of the scalar table writes its values as one of the interchange scalar classes", floor=8)
+    mod = model.module('pane.converters')
+    table = mod.assign_values.get('_BASIC_CONVERTERS')
+    if not isinstance(table, ast.Dict):
+        raise AnalysisError('pane.converters._BASIC_CONVERTERS is not a dictionary display')
+    sc = model.cls('pane.converters.ScalarConverter')
+    fields = [st.target.id for st in sc.node.body if isinstance(st, ast.AnnAssign) and isinstance(st.target, ast.Name)]
+    if '_into_data_f' not in fields:
+        raise AnalysisError('ScalarConverter has no _into_data_f field')
+    pos = fields.index('_into_data_f')
+    for k, v in zip(table.keys, table.values):
+        if not (isinstance(v, ast.Call) and unparse(v.func) == 'ScalarConverter'):
+            continue
+        r.instances += 1
+        w = v.args[pos] if len(v.args) > pos else next((kw.value for kw in v.keywords if kw.arg == '_into_data_f'), None)
+        ws = unparse(w) if w is not None else None
+        r.sample({unparse(k) if k is not None else '**': ws})
+        if ws in INTERCHANGE_SCALARS:
+            r.ok()
+        else:
+            r.fail(f"pane.converters._BASIC_CONVERTERS[{unparse(k) if k is not None else '**'}]", f"written with {ws or 'no normaliser (the value itself)'}",
+                   f"{mod.relpath}:{v.lineno}",
+                   "into_data hands out something that is not an interchange scalar (a bytearray, an instance of a str / bytes subclass): "
+                   "write_yaml refuses it (RepresenterError) and the output is not 'solely interchange values'")
+    return r
+
+
+def rule_broadcast_fallback(model: Model, rule_id: str = 'C13-R11') -> RuleResult:
+    """The library's own ``broadcast_shapes`` (used when numpy is not installed) follows numpy's rule: along an axis, the lengths other
+    than 1 must agree, and the result is that length - which may be 0.  Taking ``max()`` of all lengths picks 1 over 0: (1, 3) against
+    (0, 3) is then refused although it broadcasts to (0, 3)."""
+    r = RuleResult(rule_id, "the fallback of broadcast_shapes computes an axis from the lengths other than 1 (never max() of all lengths)", floor=1)
+    f = model.func('pane.util.broadcast_shapes')
+    r.analysed.add(f.qualname)
+    r.instances += 1
+    loops = [x for x in ast.walk(f.node) if isinstance(x, ast.For)]
+    if not loops:
+        # no implementation of its own left: numpy is required, nothing to check
+        r.sample({'fallback': 'none'})
+        r.ok()
+        return r
+    lp = loops[0]
+    tgt = unparse(lp.target)
+    unfiltered = [x for x in ast.walk(lp) if isinstance(x, ast.Call) and isinstance(x.func, ast.Name) and x.func.id in ('max', 'min')
+                  and x.args and unparse(x.args[0]) == tgt]
+    excludes_one = any((isinstance(x, ast.Compare) and any(isinstance(c, ast.Constant) and c.value == 1 for c in [x.left] + x.comparators)
+                        and any(isinstance(o, (ast.NotEq, ast.Eq, ast.Gt)) for o in x.ops))
+                       or (isinstance(x, ast.BinOp) and isinstance(x.op, ast.Sub) and '1' in unparse(x.right))
+                       or (isinstance(x, ast.Call) and isinstance(x.func, ast.Attribute) and x.func.attr in ('discard', 'remove', 'difference')
+                           and x.args and '1' in unparse(x.args[0]))
+                       for x in ast.walk(lp))
+    r.sample({'max()/min() over all lengths of an axis': [unparse(x) for x in unfiltered], 'lengths of 1 set aside': excludes_one})
+    if unfiltered or not excludes_one:
+        x = unfiltered[0] if unfiltered else lp
+        r.fail(f.qualname, f"`{unparse(x)[:50]}` decides the length of an axis", f.loc(x),
+               "without numpy, broadcastable((0, 3)) refuses shapes (1, 3), (3,) and () - which numpy broadcasts to an empty batch")
+    else:
+        r.ok()
+    return r
+
+
+def rule_explicit_hash_predicate(model: Model, rule_id: str = 'C16-R10') -> RuleResult:
+    """"Has an explicit ``__hash__``" is the standard library's predicate: ``__hash__`` is in the class namespace, and it is not the
+    ``None`` that Python itself puts there next to a hand-written ``__eq__``.  An explicit ``__hash__ = None`` (no ``__eq__`` in the
+    body) *is* explicit: it is kept, and refused together with ``unsafe_hash=True``."""
+    r = RuleResult(rule_id, "the explicit-__hash__ test is the standard library's (namespace entry present; None only counts as implicit next to an __eq__)", floor=1)
+    f = model.func('pane.classes._maybe_make_hash')
+    cfg = cfg_of(model, f)
+    nz = Normalizer(model, f, cfg, param_map=_pm(f))
+    r.analysed.add(f.qualname)
+    r.instances += 1
+    # the fourth component of the key the rule table is indexed with
+    key = None
+    def is_key(elts: t.Sequence[ast.AST]) -> bool:
+        return len(elts) == 4 and all(w_ in unparse(e_) for w_, e_ in zip(('unsafe_hash', 'eq', 'frozen'), elts))
+    for n in cfg.live_nodes():
+        for root in node_exprs(n):
+            for x in walk_no_nested(root):
+                # the key of the rule table, wherever it is written: subscript, local tuple, arguments of a selector helper
+                if isinstance(x, ast.Tuple) and is_key(x.elts):
+                    key = nz.expr(x.elts[3], n)
+                if isinstance(x, ast.Call) and is_key(x.args):
+                    key = nz.expr(x.args[3], n)
+    if key is None:
+        raise AnalysisError('_maybe_make_hash: the rule-table key (unsafe_hash, eq, frozen, explicit hash) was not found')
+    h = r"\$?cls\.__dict__\.get\('__hash__', pane\.\w+\._MISSING\)"
+    miss = rf"(?:{h} is pane\.\w+\._MISSING|pane\.\w+\._MISSING is {h})"
+    none = rf"(?:{h} is None|None is {h})"
+    eqin = r"'__eq__' in \$?cls\.__dict__"
+    want = [rf"not \({miss} or \({none} and {eqin}\)\)", rf"\(not {miss} and not \({none} and {eqin}\)\)",
+            rf"\(not {miss} and \(not {none} or not {eqin}\)\)", rf"not \({miss} or {none} and {eqin}\)"]
+    r.sample({'explicit hash': key})
+    if any(re.fullmatch(w, key) for w in want):
+        r.ok()
+    else:
+        r.fail(f.qualname, f"explicit hash = {key[:120]}", f.loc(),
+               "a class body with `__hash__ = None` and no `__eq__` is no longer treated as giving an explicit hash: a frozen class gets a "
+               "generated field hash over it, unsafe_hash=True silently overwrites it (the standard library keeps it, and raises TypeError)")
+    return r
+
+
+def rule_generated_methods_gated_on_own_namespace(model: Model, rule_id: str = 'C16-R11') -> RuleResult:
+    """Whether ``__eq__`` / the ordering methods / ``__init__`` are generated for a class depends on *its own* body
+    (``name in cls.__dict__``).  The generated methods of a pane base class sit in that base's namespace: a test that walks the MRO
+    finds them there and skips the subclass, which then compares by the base's fields only."""
+    r = RuleResult(rule_id, "whether a method is generated for a class is decided on the class's own namespace, never on its bases'", floor=2)
+    f = model.func('pane.classes._process')
+    r.analysed.add(f.qualname)
+    for c in walk_no_nested(f.node):
+        if not (isinstance(c, ast.Call) and isinstance(c.func, ast.Name) and c.func.id in ('_make_eq', '_make_ord', '_make_init')):
+            continue
+        r.instances += 1
+        tests = [anc.test for anc in ancestors(c) if isinstance(anc, ast.If) and any(x is c for s_ in anc.body for x in ast.walk(s_))]
+        texts = [unparse(t_) for t_ in tests]
+        bad = None
+        for t_ in tests:
+            for x in ast.walk(t_):
+                if isinstance(x, ast.Call) and isinstance(x.func, ast.Name) and x.func.id in ('hasattr', 'getattr') and x.args \
+                        and unparse(x.args[0]) == 'cls':
+                    bad = x
+                if isinstance(x, ast.Attribute) and x.attr in ('__mro__', '__bases__'):
+                    bad = x
+                if isinstance(x, ast.Call) and isinstance(x.func, ast.Name) and x.func.id == 'vars' and x.args and unparse(x.args[0]) != 'cls':
+                    bad = x
+        # (a test computed by a loop over the bases before the `if`)
+        for t_ in tests:
+            for nm in ast.walk(t_):
+                if isinstance(nm, ast.Name) and nm.id not in ('cls', 'opts', 'any', 'all', 'k', 'not'):
+                    for st in ast.walk(f.node):
+                        if isinstance(st, ast.Assign) and any(isinstance(tg, ast.Name) and tg.id == nm.id for tg in st.targets) \
+                                and re.search(r'__mro__|__bases__|\bvars\((?!cls\))', unparse(st.value)):
+                            bad = st.value
+        r.sample({c.func.id: texts})
+        if bad is None:
+            r.ok()
+        else:
+            r.fail(f.qualname, f"{c.func.id} is gated on `{unparse(bad)[:60]}`", f.loc(bad),
+                   "a subclass that adds compare-fields reuses its parent's generated comparison: instances that tie on the inherited fields "
+                   "and differ on a new one are neither <, == nor >")
+    if r.instances < 2:
+        raise AnalysisError('_process: the calls generating __eq__ / ordering were not found')
+    return r
+
+
+def rule_declaring_class_is_last(model: Model, rule_id: str = 'C17-R18') -> RuleResult:
+    """The table that remembers which class declared a field (it decides whose type-variable bindings apply, C17-R16) records the
+    *last* declaration met in the MRO walk: a redeclaration replaces the entry.  ``setdefault`` keeps the first, so the bindings of an
+    unrelated earlier base are tested against the wrong class."""
+    r = RuleResult(rule_id, "the declaring class recorded for a field is that of its latest declaration (entries are overwritten, not kept)", floor=1)
+    f = model.func('pane.classes._process')
+    r.analysed.add(f.qualname)
+    loops = [x for x in ast.walk(f.node) if isinstance(x, ast.For) and '__mro__' in unparse(x.iter) and isinstance(x.target, ast.Name)]
+    if not loops:
+        raise AnalysisError('_process: the walk over the MRO was not found')
+    base = loops[0].target.id
+    # tables whose values are the base: T.update(dict.fromkeys(.., base)), T[k] = base, T.setdefault(k, base)
+    writes = []
+    for x in ast.walk(loops[0]):
+        if isinstance(x, ast.Call) and isinstance(x.func, ast.Attribute) and isinstance(x.func.value, ast.Name):
+            if x.func.attr == 'setdefault' and len(x.args) == 2 and unparse(x.args[1]) == base:
+                writes.append((x, 'kept'))
+            elif x.func.attr == 'update' and x.args and re.search(rf'\b{base}\b', unparse(x.args[0])) and 'fromkeys' in unparse(x.args[0]):
+                writes.append((x, 'overwritten'))
+        if isinstance(x, ast.Assign) and len(x.targets) == 1 and isinstance(x.targets[0], ast.Subscript) and unparse(x.value) == base:
+            guarded = any(isinstance(a_, ast.If) and re.search(r'\bnot in\b', unparse(a_.test)) for a_ in ancestors(x) if a_ is not loops[0])
+            writes.append((x, 'kept' if guarded else 'overwritten'))
+    if not writes:
+        r.instances += 1
+        r.sample({'declaring-class table': 'none'})
+        r.ok()      # no such table: C17-R16 decides how bindings are scoped
+        return r
+    for x, how in writes:
+        r.instances += 1
+        r.sample({'write': unparse(x)[:70], 'an existing entry is': how})
+        if how == 'overwritten':
+            r.ok()
+        else:
+            r.fail(f.qualname, f"`{unparse(x)[:60]}` keeps the first declaring class", f.loc(x),
+                   "class Both(Listed[int], Named[str]) where both bases declare `value`: the winning declaration is tested against the other "
+                   "base, its type variable stays unbound and the substituted type is not enforced")
+    return r
+
+
+def rule_make_field_gets_class_styles(model: Model, rule_id: str = 'C20-R10') -> RuleResult:
+    """Every field of a class is baked with the class's input and output styles: each call of ``make_field`` in the class machinery
+    passes both, for every field name (a name the styles cannot split - a leading underscore - is refused by rename_field, not exempted)."""
+    r = RuleResult(rule_id, "every make_field call of the class machinery passes the class's input and output rename styles", floor=1)
+    f = model.func('pane.classes._process')
+    cfg = cfg_of(model, f)
+    nz = Normalizer(model, f, cfg, param_map=_pm(f))
+    r.analysed.add(f.qualname)
+    for n in cfg.live_nodes():
+        for root in node_exprs(n):
+            for c, bound in _walk_b(root, nz, n):
+                if not (isinstance(c, ast.Call) and isinstance(c.func, ast.Attribute) and c.func.attr == 'make_field'):
+                    continue
+                r.instances += 1
+                args = [nz.expr(a, n, bound) for a in c.args] + [f"{k.arg}={nz.expr(k.value, n, bound)}" for k in c.keywords]
+                text = ' '.join(args)
+                r.sample({'call': unparse(c)[:80]})
+                gov = [t_ for (_g, t_, _tr) in _site_conditions(model, f, c) if re.search(r'startswith|isidentifier|\[0\]|islower|name', t_)]
+                if 'in_rename' in text and 'out_rename' in text and not gov:
+                    r.ok()
+                elif gov:
+                    r.fail(f.qualname, f"make_field depends on the spelling of the name ({gov[0][:50]})", f.loc(c),
+                           "some names are exempted from the class's rename styles instead of being renamed or refused")
+                else:
+                    r.fail(f.qualname, f"`{unparse(c)[:60]}` without the class's styles", f.loc(c),
+                           "the field keeps its Python spelling on input and output although the class declares a rename style; a name that "
+                           "cannot be split (leading underscore) is accepted verbatim instead of being refused with ValueError")
+    if r.instances == 0:
+        raise AnalysisError('_process: no make_field call found')
+    return r
+
+
+def rule_declared_values_not_sorted_raw(model: Model, rule_id: str = 'C12-R10') -> RuleResult:
+    """Declared tags / literal values / enum values may be of any (mixed) kinds: ``sorted()`` on them without a key that maps every
+    value to a string raises TypeError for ``1`` next to ``'legacy'`` or ``None`` - while an error is being described, so the TypeError
+    escapes instead of a ConvertError naming the tag."""
+    r = RuleResult(rule_id, "declared tags and values are never sorted by their own (possibly mixed-kind) ordering", floor=1)
+    n = 0
+    for cq, fs in sorted(conversion_zone(model).items()):
+        ci = model.cls(cq)
+        extra = [g for nm, g in ci.methods.items() if nm.startswith(('expected', 'tag_expected', 'obj_expected', '__init__'))]
+        for f in list(fs) + extra:
+            if not isinstance(f.node, ast.FunctionDef) or f.qualname in r.analysed:
+                continue
+            r.analysed.add(f.qualname)
+            n += 1
+            for x in walk_no_nested(f.node):
+                srt = None
+                if isinstance(x, ast.Call) and isinstance(x.func, ast.Name) and x.func.id in ('sorted', 'min', 'max') and x.args:
+                    srt = x
+                elif isinstance(x, ast.Call) and isinstance(x.func, ast.Attribute) and x.func.attr == 'sort':
+                    srt = x
+                if srt is None:
+                    continue
+                key = next((k.value for k in srt.keywords if k.arg == 'key'), None)
+                keyed = key is not None and re.search(r'\b(str|repr)\b', unparse(key)) is not None
+                subject = unparse(srt.args[0]) if isinstance(srt.func, ast.Name) else unparse(srt.func.value)
+                declared = re.search(r'tag|vals|member|literal|\.types\b|tags', subject) is not None
+                if declared and not keyed:
+                    r.instances += 1
+                    r.fail(f.qualname, f"`{unparse(srt)[:60]}` orders declared values by themselves", f.loc(srt),
+                           "tags of different kinds (1, 'legacy', None) cannot be ordered: describing an unknown tag raises TypeError")
+    r.instances += 1
+    r.sample({'functions scanned': n})
+    r.ok()
+    return r
+
+
+def rule_list_phrase_keeps_every_word(model: Model, rule_id: str = 'C08-R12') -> RuleResult:
+    """``list_phrase(words)`` is "a, b, ..., or z": all words but the last, then the last.  Every subscript of ``words`` is ``[:-1]``
+    or ``[-1]`` (or the whole sequence for up to two words)."""
+    r = RuleResult(rule_id, "list_phrase names every word: the head is words[:-1], the tail words[-1]", floor=2)
+    f = model.func('pane.util.list_phrase')
+    r.analysed.add(f.qualname)
+    w = f.params[0]
+    subs = [x for x in ast.walk(f.node) if isinstance(x, ast.Subscript) and isinstance(x.value, ast.Name) and x.value.id == w]
+    ok_forms = {f'{w}[:-1]', f'{w}[-1]', f'{w}[0]', f'{w}[1]', f'{w}[:]'}
+    for x in subs:
+        r.instances += 1
+        r.sample({'part': unparse(x)})
+        if unparse(x) in ok_forms:
+            r.ok()
+        else:
+            r.fail(f.qualname, f"`{unparse(x)}`", f.loc(x),
+                   "with four or more alternatives some are silently left out of the expectation text ('red', 'green', or 'magenta' for five colours)")
+    if len(subs) < 2:
+        r.instances += 2 - len(subs)
+        # a different construction (no slicing): every word must still be joined
+        joins = [x for x in ast.walk(f.node) if isinstance(x, ast.Call) and isinstance(x.func, ast.Attribute) and x.func.attr == 'join']
+        if joins:
+            for _ in range(2 - len(subs)):
+                r.ok()
+        else:
+            r.fail(f.qualname, "the words are not joined", f.loc(), "the phrase does not list the words")
+    return r
+
+
+def rule_converter_cache_keyed_by_identity(model: Model, rule_id: str = 'C10-R18') -> RuleResult:
+    """The converter cache is keyed by the *identity* of the type object, for every kind of type: equality of types is coarser than
+    what conversion distinguishes (``list[int | float] == list[float | int]``, and typing compares unions as sets), so a key by
+    value hands the converter built for one ordering to the other."""
+    from .memo import memoised, _key_forms
+    r = RuleResult(rule_id, "make_converter's cache key holds the type by identity on every path (never the type object itself)", floor=1)
+    found = False
+    for (f, _kind, kf, _d) in memoised(model):
+        if kf is None or f.qualname != 'pane.convert.make_converter':
+            continue
+        found = True
+        r.analysed.add(kf.qualname)
+        tp = f.params[0]
+        for (form, node) in _key_forms(model, kf):
+            r.instances += 1
+            by_id = re.search(r'\bid\(\$' + re.escape(tp) + r'\)', form) is not None
+            by_value = re.search(r'(?<![\w(])\$' + re.escape(tp) + r'\b(?!\))', re.sub(r'\bid\(\$' + re.escape(tp) + r'\)', 'ID', form)) is not None
+            r.sample({'key': form, 'type by identity': by_id, 'type by value': by_value})
+            if by_id and not by_value:
+                r.ok()
+            else:
+                r.fail(kf.qualname, f"key {form[:100]}", kf.loc(node),
+                       "for some kinds of type the cache is keyed by equality: the second of two equal-but-different types (a nested union "
+                       "written in another order) gets the first one's converter, so the result depends on which was converted first")
+    if not found:
+        raise AnalysisError('make_converter is no longer memoised through a key function')
+    return r
+
+
+def rule_specialisation_cache_holds_class(model: Model, rule_id: str = 'C17-R19') -> RuleResult:
+    """``G[int]`` is memoised per generic class: the key of that memo contains the class object itself (or its id).  A key made of the
+    class's *name* hands ``Box[int]`` of one class called Box to another class called Box (a class defined in a factory function, a
+    re-run notebook cell, or two partial specialisations - all created under the bare origin name)."""
+    from .memo import memoised, _key_forms
+    r = RuleResult(rule_id, "the memo of generic specialisations is keyed by the class object, not by its name", floor=1)
+    seen = False
+    for (f, kind, kf, _d) in memoised(model):
+        if f.qualname != 'pane.classes._make_subclass':
+            continue
+        seen = True
+        r.instances += 1
+        r.analysed.add(f.qualname)
+        cp = f.params[0]
+        if kf is None:
+            r.sample({'memo': kind, 'key': 'the arguments themselves'})
+            r.ok()
+            continue
+        forms = [form for (form, _n) in _key_forms(model, kf)]
+        r.sample({'memo': kind, 'key': forms})
+        ok = all(re.search(r'(?<![\w.])\$' + re.escape(kf.params[0]) + r'(?![\w.])', form) for form in forms) if kf.params else False
+        if ok:
+            r.ok()
+        else:
+            r.fail(kf.qualname, f"key {forms[0][:100] if forms else '?'}", kf.loc(),
+                   f"the class `{cp}` enters the key through its name / module only: two different classes of the same name share their specialisations")
+    if not seen:
+        r.instances += 1
+        r.sample({'memo': 'none'})
+        r.ok()
     return r
